@@ -48,10 +48,12 @@ impl AstCache {
             let path = entry.path();
 
             if path.is_file() && path.extension().is_some_and(|ext| ext == "rs") {
-                // Skip target directory and other build artifacts
-                if path.to_string_lossy().contains("/target/")
-                    || path.to_string_lossy().contains("/.git/")
-                {
+                // Skip target directory and other build artifacts. Only directories below the
+                // project path count: a project that itself lives under .../target/... or
+                // .../.git/... (a scratch checkout, a worktree) must still be scanned
+                let below_project = path.strip_prefix(project_path).unwrap_or(path);
+                let below_project = format!("/{}", below_project.to_string_lossy());
+                if below_project.contains("/target/") || below_project.contains("/.git/") {
                     continue;
                 }
 
